@@ -21,6 +21,15 @@ def split_drift(c, res):
     return n
 
 
+def whole_lines(c, path):
+    """a crashed recorder (already reported by c.record) may leave a truncated last line / an empty file"""
+    lines = [x for x in open(path).read().splitlines() if x.startswith("{") and x.endswith("}")]
+    if not lines:
+        return False
+    open(path, "w").write("\n".join(lines) + "\n")
+    return True
+
+
 def run(c):
     th = c.thorough()
     c.rule = ("model: every N x N pattern with full diagonal x {raw, dominant, SPD} values x {CM, reversed CM} through the "
@@ -69,6 +78,8 @@ def run(c):
             runs += [("random", 16, 400)]
         for mode, nt, chunk in runs:
             t = c.record(rd, [mode], env={"OMP_NUM_THREADS": nt, "OMP_WAIT_POLICY": "passive", "GOMP_SPINCOUNT": 0}, out=c.path("d-%s-%d.ndjson" % (mode, nt)))
+            if not whole_lines(c, t):
+                continue
             res = c.tlc_trace("C16Trace", t, label="%s@%dthreads" % (mode, nt), chunk=chunk)
             for ln in res["lines"][:60000:1499]:
                 c.sample(ln, limit=8)
